@@ -531,4 +531,21 @@ func TestQuota(t *testing.T) {
 		})
 	}
 	core.RunQuota(t, ID, q, Check)
+	// frames of 2^16 pixels and more through every registered codec (Rows and Columns are
+	// 16-bit attributes; buffer sizes and plane offsets computed from their product are not)
+	seed := core.EnvInt("VERIF_SEED", 1)
+	dims := [][2]int{{256, 256}, {257, 256}, {300, 219}, {1024, 65}, {40, 1640}}
+	for i, sx := range syntaxes {
+		d := dims[(i+seed)%len(dims)]
+		c := &Case{Syntax: sx.Key, W: d[0], H: d[1], BA: 8, BS: 8, SPP: []int{1, 3}[(i+seed)%2],
+			Pool: []Frame{{Class: "gradient", Seed: uint64(seed)}, {Class: "runs", Seed: uint64(seed + 1)}},
+			Actions: []Action{{Kind: "encode", Seq: []int{0, 1}}, {Kind: "decode", Seq: []int{1, 0}}}}
+		if sx.MinBS > 8 {
+			c.BA, c.BS = 16, sx.MinBS
+		}
+		if sx.Key == "RLE" {
+			c.SPP, c.Planar = 3, 1
+		}
+		core.Eval(t, ID, "quota", c, Check)
+	}
 }
